@@ -33,17 +33,17 @@ CLAIMED = {
          "Listed known finding F-QER-RELABEL is tolerated through named slack only for sessions whose history triggers it.",
          "Randomised histories inside the generators' envelope (DESIGN A.1); kill points are between script steps and, half of the time, inside a request (the datapath server kills the agent at the K-th command it receives for the request); packet-level Classify=Denote is argued compositionally (field-wise image) rather than sampled. " + TRUST,
          "5 C03"),
- "C09": ("TLA+ R-spec BessImage (QerValuesOK in BigNat arithmetic, SoundSessQer) validated by TLC on the QoS entries the real agent programs; systematic enumeration of QER-list shapes",
+ "C09": ("TLA+ R-specs BessImage (QerValuesOK in BigNat arithmetic, SoundSessQer) and Up4Image (PeakRatesOK, TermsOK) validated by TLC on the QoS entries the real agent programs; systematic enumeration of QER-list shapes; I-model QerRoles.tla model-checked (with negative controls) and GEN scripts from Up4QosScript.tla replayed into the agent",
          "TLC judges every appQERLookup / sessionQERLookup entry recorded after each accepted request of the real agent: gate as signalled, pir = MBR x 125 and cir = max(GBR x 125, 1) for GBR <= MBR, "
          "unmetered iff both rates are zero, cbs/pbs/ebs at least the configured minimum of the QFI and at least floor(rate x duration) (exact limb arithmetic), and the QER represented in "
          "sessionQERLookup is referenced by every PDR of the session (existential choice of the session-level QER that explains all three tables). Besides seeded random sessions with boundary rates and "
          "per-QFI burst configurations, the session shapes (2-3 PDRs x every ordered QER list over three ids x GBR / MBR patterns; 278 528 shapes) are enumerated: a seed-dependent stride in the quick tier, all of them in the thorough tier.",
-         "UP4 shards: Up4Image!PeakRatesOK judges the app_meter / session_meter cells on the path of every forwarded PDR (each QER's MBR x 125 is held by a cell the PDR's entries name, and no cell on the path holds anything else; burst >= 10 ms at that rate), the traffic class and gates are part of C04; re-labelling after QER-creating/updating modifications on BESS is the listed known finding F-QER-RELABEL (named slack). " + TRUST,
+         "UP4 shards: Up4Image!PeakRatesOK judges the app_meter / session_meter cells on the path of every forwarded PDR (each QER's MBR x 125 is held by a cell the PDR's entries name, and no cell on the path holds anything else; burst >= 10 ms at that rate), the traffic class and gates are part of C04; re-labelling after QER-creating/updating modifications on BESS is the listed known finding F-QER-RELABEL (named slack). GEN: TLC enumerates every behaviour of 3 (thorough: 4) operations of spec/Up4QosScript.tla (10 establishment shapes, session-level / flow QER updates, flows added / removed; 623 / 5 050 scripts), replayed into the agent on UP4; design level: QerRoles.tla (marking, meter kinds, entry roles as coded after fixes b116398 / 9209b4c; complete graph) with the code before each fix as negative control. " + TRUST,
          "5 C09"),
  "C14": ("TLA+ R-spec Pfcp!EndMarkersDue: TLC compares the decoded packets of the end-marker socket with the markers due for the pre-update session state",
          "Every packet the real agent writes to the end-marker unixpacket socket is decoded (Ethernet/IPv4/UDP/GTPv1-U) and TLC checks, per Session Modification, that the multiset of markers equals "
          "EndMarkersDue (one per updated existing FAR with SNDEM, old peer address, old TEID, source address of the old interface), UDP 2152->2152, GTP message type 254, none for flag off / unknown FAR id / "
-         "rejected modification / creation / end markers disabled, and that each marker arrives after the held farLookup add was acknowledged.",
+         "rejected modification (one UP4 shard in three has writes failed by the switch) / creation / end markers disabled, and that each marker arrives after the held farLookup add was acknowledged.",
          "Both datapaths: on UP4 the markers are the packet-outs received by the harness' P4Runtime switch, 'after programming' = after the last Write RPC of the request was answered; on BESS ordering is observed by delaying the FAR programming by 25 ms. Markers due form a bag (several updated rules may have used the same tunnel). " + TRUST,
          "5 C14"),
  "C06": ("TLA+ IPPool (set-based R-level allocator; FIFO I-model refining it, complete graphs) + TraceC06: TLC validates every recorded call of the real IPPool, with linearisation search for concurrent histories",
@@ -117,8 +117,8 @@ CLAIMED = {
  "C10": ("TLA+ Lifecycle (goroutines, channels, sync.Once of node / association life-cycle as coded; complete interleaving graphs, liveness) + forced and randomised schedules on the real agent judged by R-spec TraceE2E!StopEv",
          "Design level: Lifecycle.tla models every interleaving point of conn Serve / reader / heartbeat monitor / Shutdown sub-steps / node Serve with Go channel semantics; TLC checks NoPanic, DeletedAtMostOnce, NoDeleteAgainstClosedDatapath, "
          "StoppedClean on the complete graphs of 1 and 2 associations (2.8 M states) and StopTerminates under fairness. Implementation: (a) deterministic forced schedules through the blocking scheduling gates (a second Shutdown provoked "
-         "after the first completed: heartbeat-dead vs stop, release vs stop, node held before exit); (b) a seeded random scheduler that arms the gate at every scheduling point, releases parked goroutines one at a time and stalls one class "
-         "of steps per run; (c) randomised timing of release / unanswered heartbeats / read time-out / SIGTERM over 0..8 associations (one scale point 40-100) with requests in flight, half of the shards under the race detector. "
+         "after the first completed: heartbeat-dead vs stop, release vs stop, node held before exit; and forced overlaps: a release, a heartbeat failure or the peer's heartbeats while a teardown is held before its first session); (b) a seeded random scheduler that arms the gate at every scheduling point, releases parked goroutines one at a time and stalls one class "
+         "of steps per run; (c) randomised timing of release / unanswered heartbeats / read time-out / SIGTERM over 0..8 associations (scale points 40-140, one above the 100 completions the node buffers) with requests in flight, half of the shards under the race detector. "
          "TLC judges StopCompletesWithoutPanic, StopInBoundedTime, EachSessionRemovedExactlyOnce (no residue, no failed or repeated delete) and the C02/C03 invariants on re-association and on the other associations.",
          "Schedules at the implementation are forced / sampled, not enumerated from the model's graph (edge cover through GEN is future work); bounded stop time is 5 s (20 s under the gating scheduler). " + TRUST,
          "5 C10"),
@@ -127,7 +127,7 @@ CLAIMED = {
          "per-update results of a batch, wildcard reads, meter and counter cells). Seeded randomised histories (1-3 associations, up to 5 live sessions sharing gNB peers and application filters, sessions with one shared or per-flow TEIDs, "
          "FAR updates buffer <-> forward <-> other gNB, QER gate / QFI updates, PDR updates, flows removed and added, association release, SIGKILL + restart against the populated switch; random slice id, QFI->TC map, default TC; "
          "a third of the shards with boundary values) are recorded step by step; in addition (GEN) TLC generates every script of 4 (thorough: 5) control-plane operations over two sessions that share gNB and application filters "
-         "(spec/Up4Script.tla, 629 / 4 849 scripts) and the harness replays them into the real agent; after every accepted request, every lost association and every start TLC evaluates Up4Image!TablesAreImage "
+         "(spec/Up4Script.tla, incl. removal of all downlink PDRs of a session; 725 / 5 645 scripts) and the harness replays them into the real agent; after every accepted request, every lost association and every start TLC evaluates Up4Image!TablesAreImage "
          "(interfaces, sessions_uplink / sessions_downlink keys and buffer / tunnel-peer action, terminations key and drop / forward action with TEID, QFI and traffic class, one applications entry per distinct filter and one tunnel_peers "
          "entry per distinct GTP peer present iff used, meter cells bounded by the live QERs) and InterfacesThroughout.",
          "Inside the envelope of DESIGN 11.4 (one UE address and one downlink forwarding state per session, distinct application filters per direction, at most one QFI-carrying QER per PDR, closed gates only on that QER), checked as a structural invariant; "
@@ -145,7 +145,7 @@ CLAIMED = {
          "Every update of every Write RPC (tables, meters, counters; INSERT / MODIFY / DELETE, also the start-up clearing and the rollback writes) is recorded as sent - ids and byte strings - and TLC evaluates P4Valid!WriteValid against the "
          "P4Info the harness parsed from the shipped conf/p4/bin/p4info.txt: table known, each match field of the table with the declared kind and a value that fits the declared width, LPM length within the width, the action allowed for entries and "
          "carrying exactly its declared parameters with fitting values, non-zero priority for tables with ternary / range fields, meter and counter indices inside the declared sizes. Inputs are the C04 histories with boundary values "
-         "(precedences 0 / 65534 / 65535 / beyond, any 32-bit TEID and gNB address, QFIs up to 63, ports touching 0 and 65535, prefix lengths 1..32, slice ids 0..15, traffic classes 0..3). The constants generator is run 4 (12) times on the "
+         "(precedences 0 / 65534 / 65535 / beyond, any 32-bit TEID and gNB address, QFIs up to 63, ports touching 0 and 65535, prefix lengths 1..32, slice ids 0..15, traffic classes 0..3), and one shard in six first drains both meter pools (about 512 sessions) so that the cells at the edge of the arrays are handed out. The constants generator is run 4 (12) times on the "
          "shipped P4Info: outputs identical, and gofmt(output) identical to the committed internal/p4constants/p4constants.go.",
          "Only the clauses the statement lists are checked (not, e.g., canonical byte strings or masked ternary values); inputs are sampled around the boundaries, not enumerated; the constants comparison is a direct regeneration, not a model. " + TRUST,
          "5 C16"),
